@@ -1,6 +1,9 @@
 (* C16 runner.  The trace is the concatenation of several replays of the same seeded workload
    (fresh in-process apps, fresh processes with different GOMAXPROCS).  Lines:
      replay <label>
+     zone <off1>_<off2>          the offsets from UTC that "local time" has in this process before and after the
+                                 daylight-saving switch the block times cross (TZ of the process)
+     mode plain|dryrun           dryrun: every transaction was preceded by discarded dry runs
      case <block> ...            one case per block
      tx <i> <class>              result class of each transaction of the block
      d <store> <sha256>          digest of every DeFi module store and of the bank store after the block
@@ -18,6 +21,8 @@ let run (path : string) =
   let replay = ref "" and block = ref "" in
   let replays = ref [] in
   let txs = ref 0 and ok_txs = ref 0 in
+  let zones : (string, unit) Hashtbl.t = Hashtbl.create 8 in
+  let dryruns = ref 0 in
   let add field v =
     let key = !block ^ "|" ^ field in
     (match Hashtbl.find_opt tbl key with
@@ -26,6 +31,8 @@ let run (path : string) =
   L.iter (fun line ->
       match tokens line with
       | "replay" :: label :: _ -> replay := label; replays := label :: !replays; bump "replays"
+      | "zone" :: z :: _ -> Hashtbl.replace zones z (); bump ("zone:" ^ z)
+      | "mode" :: m :: _ -> bump ("mode:" ^ m); if m = "dryrun" then incr dryruns
       | "case" :: b :: _ -> block := b
       | "tx" :: i :: cls :: _ -> add ("tx" ^ i) cls; if !replay = L.hd (L.rev !replays) then (incr txs; bump ("tx:" ^ cls); if cls = "ok" then incr ok_txs)
       | "d" :: store :: dg :: _ -> add ("store:" ^ store) dg
@@ -48,7 +55,11 @@ let run (path : string) =
       end) (L.rev !order);
   Hashtbl.iter (fun b () -> Hashtbl.replace distinct b ()) blocks;
   let nb = Hashtbl.length blocks in
-  (* non-trivial: at least 2 replays and successful transactions *)
-  finish ~cases:nb ~steps:!steps ~nontrivial:(if nrep >= 2 && !ok_txs > 0 then nb else 0)
+  (* non-trivial: at least 2 replays, successful transactions, replays in at least 3 different zones (one
+     of them with a daylight-saving switch inside the history) and a replay with discarded dry runs *)
+  let dst = Hashtbl.fold (fun z () acc -> acc || (match S.split_on_char '_' z with [ a; b ] -> a <> b | _ -> false)) zones false in
+  let wide = Hashtbl.length zones >= 3 && dst && !dryruns >= 1 in
+  if nrep >= 2 && not wide then bump "setup:zones-or-dryrun-missing";
+  finish ~cases:nb ~steps:!steps ~nontrivial:(if nrep >= 2 && !ok_txs > 0 && wide then nb else 0)
 
 let () = Conv.register "C16" run
